@@ -803,7 +803,7 @@ class _GenerateRenderMethod:
             # if filter given as a function, get just the identifier portion
             if e == "n":
                 continue
-            m = re.match(r"(.+?)(\(.*\))", e)
+            m = re.match(r"(.+?)(\(.*\))$", e, re.S)
             if m:
                 ident, fargs = m.group(1, 2)
                 f = locate_encode(ident)
